@@ -197,6 +197,13 @@ def run(ctx):
                     elif label == "partial" and em.cfg(recv, "insurance_fund"):
                         if match(FEE, N(ix, amount)) is None:
                             bad = bad or "insurance fund receives %s" % norm.show(N(ix, amount))
+                    elif label == "full" and em.cfg(recv, "insurance_fund"):
+                        # the remaining margin: remain-margin result minus the liquidator's fee, nothing else
+                        rms = em.remain_margin_calls(q)
+                        rmv = ix.inline(sym.field(sym.unwrap(rms[0].result), "margin")) if rms else None
+                        REST = ("sub", hole("rm.margin", lambda v: rmv is not None and ix.inline(v) == rmv), FEE)
+                        if match(REST, N(ix, amount)) is None:
+                            bad = bad or "insurance fund receives %s, not (remaining margin - liquidator fee)" % norm.show(N(ix, amount))
                     elif not em.cfg(recv, "insurance_fund"):
                         bad = bad or "a liquidation pays %s (only the liquidator and the insurance fund may receive)" % sym.show(ix.inline(recv), 4)
                     elif payer is not None:
